@@ -16,6 +16,13 @@ static int scan_cb(YR_SCAN_CONTEXT* ctx, int msg, void* data, void* ud)
   CB* cb = (CB*) ud;
   switch (msg)
   {
+  case CALLBACK_MSG_TOO_MANY_MATCHES:
+  {
+    YR_STRING* st = (YR_STRING*) data;
+    YR_RULE* ru = &ctx->rules->rules_table[st->rule_idx];
+    printf(" TM:%s.%s.%s", ru->ns->name, ru->identifier, st->identifier);
+    break;
+  }
   case CALLBACK_MSG_IMPORT_MODULE:
     printf(" IMP:%s", ((YR_MODULE_IMPORT*) data)->module_name);
     break;
@@ -63,13 +70,25 @@ static void atom_text(const char* a, char* cond, size_t* co, char* strs, size_t*
   case 'z': *co += snprintf(cond + *co, SRCMAX - *co, "filesize > %s", a + 1); break;
   case 'r': *co += snprintf(cond + *co, SRCMAX - *co, "r%s", a + 1); break;
   case 'x': *co += snprintf(cond + *co, SRCMAX - *co, "not r%s", a + 1); break;
-  case 's':
-  case 'n':
+  case 's': case 'n': case 'c':       // $s / not $s / #s > N  (c<N>_<hex>)
+  case 'S': case 'N': case 'C':       // the same with a `private` string
   {
+    int priv = a[0] >= 'A' && a[0] <= 'Z';
+    char kind = priv ? a[0] - 'A' + 'a' : a[0];
+    const char* h = a + 1;
+    long cnt = 0;
+    if (kind == 'c')
+    {
+      cnt = strtol(a + 1, NULL, 10);
+      h = strchr(a, '_');
+      if (!h) DIE("bad count atom %s", a);
+      h++;
+    }
     *so += snprintf(strs + *so, SRCMAX - *so, " $s%d = {", *nstr);
-    for (const char* h = a + 1; h[0] && h[1]; h += 2) *so += snprintf(strs + *so, SRCMAX - *so, " %c%c", h[0], h[1]);
-    *so += snprintf(strs + *so, SRCMAX - *so, " }");
-    *co += snprintf(cond + *co, SRCMAX - *co, "%s$s%d", a[0] == 'n' ? "not " : "", *nstr);
+    for (; h[0] && h[1]; h += 2) *so += snprintf(strs + *so, SRCMAX - *so, " %c%c", h[0], h[1]);
+    *so += snprintf(strs + *so, SRCMAX - *so, " }%s", priv ? " private" : "");
+    if (kind == 'c') *co += snprintf(cond + *co, SRCMAX - *co, "#s%d > %ld", *nstr, cnt);
+    else *co += snprintf(cond + *co, SRCMAX - *co, "%s$s%d", kind == 'n' ? "not " : "", *nstr);
     (*nstr)++;
     break;
   }
